@@ -1070,4 +1070,266 @@ theorem stdLoop_noLongRun (last : Option Callpoint) (count : Nat) (fs : List Cal
         rw [hfl, ih (some f) 1 (by omega) h]
         simp
 
+/-! ## a traceback text without exception line (format_stack / TracebackInfo.get_formatted output) -/
+
+theorem isTrailer_space (l : Str) : isTrailer (' ' :: l) = false := by
+  have : trailerPre = 'E' :: "xception ".toList := rfl
+  simp [isTrailer, this, List.isPrefixOf]
+
+theorem parseLoop_nil (re : Str → Option Frame) : parseLoop re [] = ([], []) := by
+  rw [parseLoop]
+
+/-- the last frame of a text that ends in a frame (+ source line) -/
+theorem parseLoop_last_frame {f : Frame} (hf : WFframe f = true) :
+    parseLoop matchFrame (frameLines f) = ([f], []) := by
+  obtain ⟨_, _, _, _, _, _, _, h8⟩ := WFframe_parts hf
+  unfold frameLines
+  by_cases hsrc : f.src = []
+  · simp only [hsrc, ↓reduceIte]
+    rw [parseLoop_cons_some (matchFrame_frameLine hf)]
+    simp only [takeSource, skipUnderline, parseLoop_nil]
+    have : ({ file := f.file, lineno := f.lineno, func := f.func, src := ([] : Str) } : Frame) = f := by
+      cases f; simp_all
+    rw [this]
+  · simp only [hsrc, ↓reduceIte]
+    rw [parseLoop_cons_some (matchFrame_frameLine hf), takeSource_src h8 hsrc]
+    simp only [skipUnderline, parseLoop_nil]
+
+theorem parseLoop_stack (frames : List Frame) (hall : ∀ f ∈ frames, WFframe f = true) :
+    parseLoop matchFrame (frames.flatMap frameLines) = (frames, []) := by
+  induction frames with
+  | nil => simp [parseLoop_nil]
+  | cons f rest ih =>
+    have ih := ih (fun x hx => hall x (by simp [hx]))
+    have hf := hall f (by simp)
+    cases rest with
+    | nil => simpa using parseLoop_last_frame hf
+    | cons g rest' =>
+      have hg := hall g (by simp)
+      have hfl : frameLines f = frameLinesA (f, none) := by
+        unfold frameLines frameLinesA; split <;> simp_all
+      obtain ⟨r, hr⟩ : ∃ r, frameLines g = frameLine g :: r := by
+        unfold frameLines; split <;> exact ⟨_, rfl⟩
+      have hL : (g :: rest').flatMap frameLines = frameLine g :: (r ++ rest'.flatMap frameLines) := by
+        simp [List.flatMap_cons, hr]
+      rw [List.flatMap_cons, hfl, hL]
+      rw [parseLoop_frame hf (by rfl) (stopLine_frameLine hg), ← hL, ih]
+
+theorem frameLines_notSep {f : Frame} (hf : WFframe f = true) : ∀ l ∈ frameLines f, l.all notSep = true := by
+  have hfl : frameLines f = frameLinesA (f, none) := by
+    unfold frameLines frameLinesA; split <;> simp_all
+  rw [hfl]; exact frameLinesA_notSep (fa := (f, none)) hf (by rfl)
+
+theorem frameLines_last_ne_nil (f : Frame) : ∃ last, (frameLines f).getLast? = some last ∧ last ≠ [] := by
+  unfold frameLines
+  split
+  · exact ⟨frameLine f, rfl, by rw [frameLine_eq]; simp⟩
+  · exact ⟨ind4 ++ f.src, rfl, by simp [ind4]⟩
+
+theorem fromStringF_stack (frames : List Frame) (hall : ∀ f ∈ frames, WFframe f = true) (hne : frames ≠ []) :
+    fromStringF (joinNL (header :: frames.flatMap frameLines)) = .ok (.tb, ⟨frames, [], []⟩) := by
+  obtain ⟨last, hlast, hlne⟩ : ∃ last, (header :: frames.flatMap frameLines).getLast? = some last ∧ last ≠ [] := by
+    have hrev : frames.reverse ≠ [] := by simpa using hne
+    cases hr : frames.reverse with
+    | nil => exact absurd hr hrev
+    | cons g rest =>
+      have hfr : frames = rest.reverse ++ [g] := by
+        have := congrArg List.reverse hr; simpa using this
+      obtain ⟨last, h1, h2⟩ := frameLines_last_ne_nil g
+      refine ⟨last, ?_, h2⟩
+      rw [hfr, List.flatMap_append, List.getLast?_cons, List.getLast?_append]
+      simp [h1]
+  have hsep : ∀ l ∈ header :: frames.flatMap frameLines, l.all notSep = true := by
+    intro l hl
+    simp only [List.mem_cons, List.mem_flatMap] at hl
+    rcases hl with rfl | ⟨f, hf, hl⟩
+    · decide
+    · exact frameLines_notSep (hall f hf) l hl
+  have hfirst : firstNotSpace (joinNL (header :: frames.flatMap frameLines)) = true := by
+    have : frames.flatMap frameLines ≠ [] := by
+      intro h; rw [h] at hlast; simp at hlast
+      have hsame : last = header := hlast.symm
+      cases frames with
+      | nil => exact hne rfl
+      | cons f fs =>
+        obtain ⟨l, h1, _⟩ := frameLines_last_ne_nil f
+        have : frameLines f ≠ [] := by intro h'; rw [h'] at h1; simp at h1
+        simp [List.flatMap_cons, this] at h
+    rw [joinNL_cons_of_ne this]
+    exact firstNotSpace_append (by rfl)
+  have htr : isTrailer last = false := by
+    -- the last line is a frame line or a source line: it starts with two spaces
+    have hmem : last ∈ header :: frames.flatMap frameLines := List.mem_of_getLast? hlast
+    simp only [List.mem_cons, List.mem_flatMap] at hmem
+    rcases hmem with rfl | ⟨f, _, hl⟩
+    · decide
+    · unfold frameLines at hl
+      split at hl
+      · simp at hl; subst hl; rw [frameLine_eq]; exact isTrailer_space _
+      · simp at hl
+        rcases hl with rfl | rfl
+        · rw [frameLine_eq]; exact isTrailer_space _
+        · exact isTrailer_space _
+  unfold fromStringF
+  rw [lstrip_of_first hfirst, splitlines_joinNL hsep hlast hlne]
+  unfold fromLinesF
+  rw [dropTrailers_of_last hlast htr]
+  have hh : strip header = header := strip_of_first_last (by rfl) (by rfl)
+  simp only [hh, ↓reduceIte, parseLoop_stack frames hall]
+  rfl
+
+/-! ## the text-level predicate accepts every rendering of well-formed data -/
+
+theorem splitNL_joinNL {ls : List Str} (hall : ∀ l ∈ ls, ∀ c ∈ l, c ≠ '\n') (hne : ls ≠ []) :
+    splitNL (joinNL ls) = ls := by
+  induction ls with
+  | nil => simp at hne
+  | cons l rest ih =>
+    cases rest with
+    | nil =>
+      simp only [joinNL]
+      have := splitNL_append_noNL [] (hall l (by simp))
+      simpa [splitNL] using this
+    | cons m rest' =>
+      rw [joinNL_cons_of_ne (by simp), splitNL_append_noNL _ (hall l (by simp))]
+      have e : splitNL ('\n' :: joinNL (m :: rest')) = [] :: splitNL (joinNL (m :: rest')) := by
+        rw [splitNL]; simp
+      simp only [e, List.head_cons, List.tail_cons, List.append_nil]
+      rw [ih (fun x hx => hall x (by simp [hx])) (by simp)]
+
+theorem no_nl_of_notSep {l : Str} (h : l.all notSep = true) : ∀ c ∈ l, c ≠ '\n' := by
+  intro c hc hcn
+  have := List.all_eq_true.mp h c hc
+  subst hcn
+  simp [notSep, isSep_nl] at this
+
+theorem dropPrefix_ind2_none {l : Str} (h : startsWithSpace l = false) : dropPrefix? ind2 l = none := by
+  cases l with
+  | nil => rfl
+  | cons c cs =>
+    have hc : c ≠ ' ' := by
+      intro hc; subst hc; simp [startsWithSpace] at h
+    simp [ind2, dropPrefix?, Ne.symm hc]
+
+theorem dropPrefix_ind4_frameLine (f : Frame) : dropPrefix? ind4 (frameLine f) = none := by
+  rw [frameLine_eq]
+  have : litA = 'F' :: "ile \"".toList := rfl
+  simp [ind4, dropPrefix?, this]
+
+theorem dropPrefix_ind2_frameLine (f : Frame) :
+    dropPrefix? ind2 (frameLine f) = some (litA ++ (f.file ++ (litB ++ (f.lineno ++ (litC ++ f.func))))) := by
+  rw [frameLine_eq]
+  simp [ind2, dropPrefix?]
+
+theorem matchFrame_body {f : Frame} (h : WFframe f = true) :
+    matchFrame (litA ++ (f.file ++ (litB ++ (f.lineno ++ (litC ++ f.func))))) = some ⟨f.file, f.lineno, f.func, []⟩ := by
+  obtain ⟨h1, _, h3, h4, _, h6, h7, _⟩ := WFframe_parts h
+  exact matchFrame_render h1 h3 h4 (lastNotSpace_ne_nil h6) h7
+
+/-- the layout reading recovers rendered frames followed by the exception lines -/
+theorem readFrames_frames (frames : List Frame) {e1 : Str} {E : List Str}
+    (hall : ∀ f ∈ frames, WFframe f = true) (he : startsWithSpace e1 = false) :
+    readFrames (frames.flatMap frameLines ++ e1 :: E) = (frames, e1 :: E) := by
+  induction frames with
+  | nil =>
+    simp only [List.flatMap_nil, List.nil_append]
+    rw [readFrames, dropPrefix_ind2_none he]
+  | cons f rest ih =>
+    have ih := ih (fun x hx => hall x (by simp [hx]))
+    have hf := hall f (by simp)
+    obtain ⟨_, _, _, _, _, _, _, h8⟩ := WFframe_parts hf
+    -- the line that follows this frame's lines is not indented by four spaces
+    have hnext : ∃ nl L, rest.flatMap frameLines ++ e1 :: E = nl :: L ∧ dropPrefix? ind4 nl = none := by
+      cases rest with
+      | nil =>
+        refine ⟨e1, E, by simp, ?_⟩
+        cases e1 with
+        | nil => rfl
+        | cons c cs =>
+          have hc : c ≠ ' ' := by intro hc; subst hc; simp [startsWithSpace] at he
+          simp [ind4, dropPrefix?, Ne.symm hc]
+      | cons g rest' =>
+        obtain ⟨r, hr⟩ : ∃ r, frameLines g = frameLine g :: r := by
+          unfold frameLines; split <;> exact ⟨_, rfl⟩
+        exact ⟨frameLine g, r ++ (rest'.flatMap frameLines ++ e1 :: E), by simp [hr], dropPrefix_ind4_frameLine g⟩
+    obtain ⟨nl, L, hL, hnl⟩ := hnext
+    rw [List.flatMap_cons, List.append_assoc, hL]
+    unfold frameLines
+    by_cases hsrc : f.src = []
+    · simp only [hsrc, ↓reduceIte, List.cons_append, List.nil_append]
+      rw [readFrames, dropPrefix_ind2_frameLine]
+      simp only [matchFrame_body hf, hnl]
+      rw [← hL, ih]
+      have : ({ file := f.file, lineno := f.lineno, func := f.func, src := ([] : Str) } : Frame) = f := by
+        cases f; simp_all
+      rw [this]
+    · simp only [hsrc, ↓reduceIte, List.cons_append, List.nil_append]
+      rw [readFrames, dropPrefix_ind2_frameLine]
+      simp only [matchFrame_body hf, dropPrefix?_append]
+      rw [← hL, ih]
+
+theorem readText_toString (pe : PE) (h : WFpe pe = true) : readText (toString pe) = some pe := by
+  have hA := WFtextA_noAnchors pe h
+  simp only [WFpe, Bool.and_eq_true, List.all_eq_true] at h
+  obtain ⟨hfr, hexc⟩ := h
+  obtain ⟨h1, h2, h3, h4, h5, h6⟩ := WFexc_parts hexc
+  obtain ⟨e1, E, hsplit, hhead⟩ := excHead_excLine (msg := pe.msg) h1 h2 h3
+  have hlines : toString pe = joinNL (header :: (pe.frames.flatMap frameLines ++ splitNL (excLine pe.etype pe.msg))) := by
+    unfold toString toLines
+    have := joinNL_append_splitNL (header :: pe.frames.flatMap frameLines) (excLine pe.etype pe.msg)
+    simpa using this.symm
+  have hnonl : ∀ l ∈ header :: (pe.frames.flatMap frameLines ++ splitNL (excLine pe.etype pe.msg)),
+      ∀ c ∈ l, c ≠ '\n' := by
+    intro l hl
+    apply no_nl_of_notSep
+    simp only [List.mem_cons, List.mem_append, List.mem_flatMap] at hl
+    rcases hl with rfl | ⟨f, hf, hl⟩ | hl
+    · decide
+    · exact frameLines_notSep (hfr f hf) l hl
+    · exact splitNL_lines_notSep (excLine_msgCharOK h2 h4) l hl
+  unfold readText
+  rw [hlines, splitNL_joinNL hnonl (by simp)]
+  simp only [↓reduceIte]
+  rw [hsplit, readFrames_frames pe.frames hfr hhead.noIndent, ← hsplit]
+  simp only [hsplit, List.cons_ne_nil, ↓reduceIte]   -- the exception part is not empty
+  rw [← hsplit, excParts_excLine h2]
+
+theorem WFtext_toString (pe : PE) (h : WFpe pe = true) : WFtext (toString pe) = true := by
+  unfold WFtext
+  rw [readText_toString pe h]
+  simp [h]
+
+/-! ## glue used by Props -/
+
+theorem toString_eq_toStringA (pe : PE) : toString pe = toStringA (noAnchors pe) pe.etype pe.msg := by
+  unfold toString toStringA toLines toLinesA noAnchors
+  congr 3
+  induction pe.frames with
+  | nil => rfl
+  | cons f fs ih =>
+    have : frameLines f = frameLinesA (f, none) := by
+      unfold frameLines frameLinesA
+      split <;> simp_all
+    simp only [List.map_cons, List.flatMap_cons, ih, this]
+
+theorem WFtextA_noAnchors (pe : PE) (h : WFpe pe = true) : WFtextA (noAnchors pe) pe.etype pe.msg = true := by
+  simp only [WFpe, Bool.and_eq_true, List.all_eq_true] at h
+  simp only [WFtextA, noAnchors, Bool.and_eq_true, List.all_eq_true, List.mem_map]
+  refine ⟨?_, h.2⟩
+  rintro fa ⟨f, hf, rfl⟩
+  simp [h.1 f hf, WFanchor]
+
+theorem fromStringF_noframes {t e1 : Str} {E : List Str}
+    (h1 : dropTrailers (splitlines (lstrip t)) = header :: e1 :: E) (h2 : matchFrame (strip e1) = none) :
+    fromString t = .ok ⟨[], (excParts (e1 :: E)).1, (excParts (e1 :: E)).2⟩ := by
+  unfold fromString fromStringF fromLinesF
+  have hh : strip header = header := strip_of_first_last (by rfl) (by rfl)
+  simp only [h1, hh, ↓reduceIte, parseLoop_cons_none h2]
+  rfl
+
+theorem flatMap_tbFrameStr (frames : List Callpoint) : frames.flatMap tbFrameStr = frames.flatMap stdFrameStr := by
+  induction frames with
+  | nil => rfl
+  | cons c cs ih => simp [List.flatMap_cons, tbFrameStr_eq_std, ih]
+
 end C16
